@@ -157,6 +157,10 @@ func callIntrinsic(fr *frame, fn *ssa.Function, args []value) value {
 		return int(v)
 	case "vsymGate", "vsymGateDone":
 		return nil
+	case "vsymDrain":
+		// let every goroutine that is still pending run to completion
+		x.drainGoroutines(fr.i)
+		return nil
 	case "vsymTier":
 		return x.ex.opts.Tier
 	case "vsymSymbolic":
